@@ -834,7 +834,7 @@ def compare_mc(ctx, case, impl_all, v):
 class CountingRandom(np.random.RandomState):
     """a real RandomState that gives up when a (mutated) redraw loop does not end"""
 
-    def __init__(self, seed, limit=40000):
+    def __init__(self, seed, limit=2500):
         super().__init__(seed)
         self.n_calls = 0
         self.limit = limit
@@ -855,9 +855,15 @@ def q_ranges(case, brute, reject):
         pc = [c for c in brute if c['ds'] == j and c['wn'] > 0]
         qs = sorted(q_of[c['ds']][c['ev']] for c in pc)
         if reject > 0 and qs:
-            cut = qs[min(len(qs) - 1, (len(qs) * (100 - reject)) // 100)]
-            for g_ in {c['shg'] for c in pc}:
-                cut = max(cut, min(q_of[c['ds']][c['ev']] for c in pc if c['shg'] == g_))
+            # the real generator is used here: every (dataset, group) block keeps at least `thr` of its
+            # probability mass valid, so that the redraw loop ends quickly
+            thr = max(0.25, (100 - reject) / 100.0)
+            cut = qs[-1]
+            for cand_cut in sorted(set(qs)):
+                if all(sum(c['w'] for c in pc if c['shg'] == g_ and q_of[c['ds']][c['ev']] <= cand_cut)
+                       >= thr * sum(c['w'] for c in pc if c['shg'] == g_) for g_ in {c['shg'] for c in pc}):
+                    cut = cand_cut
+                    break
             rd['q'] = (float(qs[0]), float(cut))
         ranges.append(rd)
     return ranges
@@ -1087,7 +1093,7 @@ def probe_mc(ctx, env, rng, case_a, case_b, alt_shgs):
     if not C.ok:
         ctx.count('C:skipped-alt-sources')
         return
-    C.ranges = new_ranges
+    C.ranges = q_ranges(case_c, C.brute, 30)       # ranges that suit the new sources (bounded redraw time)
     bC = build_mc(env, case_c)
     try:
         gA.change_shg_mgr(env.SourceHypoGroupManager(bC['shgs']))
@@ -1095,6 +1101,7 @@ def probe_mc(ctx, env, rng, case_a, case_b, alt_shgs):
         ctx.violation(site + '.change_shg_mgr', 'history:change_shg_mgr:raises-' + type(ex).__name__, str(ex)[:200],
                       case=dict(case_c, probe='change_shg_mgr'))
         return
+    gA.valid_event_field_ranges_dict_list = [dict(r) for r in C.ranges]
     ctx.count('C:change_shg_mgr')
     check_table(ctx, C, gA, 'change_shg_mgr')
     r5, live5 = observe(env, gA, seeds[1], [m1, m3])
@@ -1173,7 +1180,7 @@ def run_probes(ctx):
     probe_counts(ctx, CountsEnv(), rng)
     env = McEnv()
     done = tries = 0
-    want = ctx.budget(5, 40)
+    want = ctx.budget(12, 60)
     while done < want and tries < 8 * want:
         tries += 1
         a, b, c = gen_mc_case(rng, small=True), gen_mc_case(rng, small=True), gen_mc_case(rng, small=True)
